@@ -250,14 +250,14 @@ theorem pvf_facts (c : Pvf.Cfg) (hwf : c.wf) :
            snapFn := fun a b ops ops' e => by rw [(hconst a ops).2, (hconst b ops').2, e],
            snapParse := ?_, Gdata := fun a b e h => by unfold guardOf at *; rw [← e]; exact h }
   intro st ops hg
-  obtain ⟨h1, _⟩ := C04Pvf.pvf_snapshot_valid c ⟨hcd, hch1, hch2, hsr1, hsr2⟩ st ops hg.2
+  obtain ⟨h1, _⟩ := C04Pvf.pvf_snapshot_valid c ⟨hcd, hch1, hch2, hsr1, hsr2⟩ st ops
   refine ⟨_, h1, by rw [hnbw]; rfl, rfl, ?_, ?_⟩
   · show (0x0E0000 + c.codec) % 0x10000000 = (0x0E0000 + c.codec) % 0x10000000
     rfl
   · show rateOk (pvfGeom c).major c.sr ((Pvf.quant c.sr : Nat) : Int) = true
     rw [hmajor]; simp [rateOk, rateClass, Pvf.quant]
 
-/-- PVF: every job is accepted outside the class KF-PVF-TINY (a file shorter than the 12 bytes the type detection needs),
+/-- PVF: every job is accepted; the guard (a file of at least 12 bytes) is a leftover of the time before 356615c, when KF-PVF-TINY excluded shorter files: `pvf_snapshot_valid` no longer needs it,
     asked of the finished file and of every crash image -/
 theorem pvf_session_accepted (c : Pvf.Cfg) (hwf : c.wf) (ty : Ty) (stale stale' : Nat) (ops : List Small.Op)
     (hv : Valid c.ch ty ops)
